@@ -69,7 +69,7 @@ impl Opts {
   }
 }
 
-fn is_checkable(o: &Opts, spec: &ModuleSpecifier, mt: MediaType) -> bool {
+pub fn is_checkable(o: &Opts, spec: &ModuleSpecifier, mt: MediaType) -> bool {
   use MediaType::*;
   match mt {
     TypeScript | Mts | Cts | Dts | Dmts | Dcts | Tsx | Json | Wasm => true,
